@@ -96,11 +96,19 @@ def to_model(kind, v):
     if kind == "tx":
         return expand_tx(v)
     if kind == "header":
-        return {"version": v["version"], "prev": bytes.fromhex(v["prev"]), "merkle": bytes.fromhex(v["merkle"]),
-                "time": v["time"], "bits": v["bits"], "nonce": v["nonce"]}
+        m = {"version": v["version"], "prev": bytes.fromhex(v["prev"]), "merkle": bytes.fromhex(v["merkle"]),
+             "time": v["time"], "bits": v["bits"], "nonce": v["nonce"]}
+        if v.get("carry"):
+            # the header is handed over as a full block object (one that came from Block.parse, say): the Block carries
+            # transactions, its merkle root is theirs; what goes on the wire for a header field is still the 80 bytes
+            m["carry_txs"] = [{"version": 1, "lock_time": 0, "ins": [{"prev": bytes([k + 1]) * 32, "index": k, "script": b"\x51",
+                                                                      "sequence": 0xFFFFFFFF, "witness": []}],
+                               "outs": [{"value": k, "script": b"\x51"}]} for k in range(v["carry"])]
+            m["merkle"] = refser.merkle_root([refser.tx_hash(t) for t in m["carry_txs"]])
+        return m
     if kind == "block":
         txs = [expand_tx(t) for t in v["txs"]]
-        h = to_model("header", dict(v["header"], merkle="00" * 32))
+        h = to_model("header", dict(v["header"], merkle="00" * 32, carry=0))
         h["merkle"] = refser.merkle_root([refser.tx_hash(t) for t in txs])
         return {"header": h, "txs": txs}
     raise HarnessError("unknown kind %r" % (kind,))
@@ -121,7 +129,10 @@ def to_py(kind, m, net):
     if kind == "tx":
         return txgen.to_pycoin(net.tx, m)
     if kind == "header":
-        return net.block(m["version"], m["prev"], m["merkle"], m["time"], m["bits"], m["nonce"])
+        b = net.block(m["version"], m["prev"], m["merkle"], m["time"], m["bits"], m["nonce"])
+        if m.get("carry_txs"):
+            b.set_txs([txgen.to_pycoin(net.tx, t) for t in m["carry_txs"]])
+        return b
     if kind == "block":
         b = to_py("header", m["header"], net)
         b.set_txs([txgen.to_pycoin(net.tx, t) for t in m["txs"]])
@@ -193,7 +204,7 @@ def fields_model(name, case):
         ids = [hashlib.sha256(b"%d:%d" % (seed, i)).digest() for i in range(n)]
         matches = [bool(f["match_mask"] >> i & 1) for i in range(n)]
         hashes, flags = refser.partial_merkle_tree(ids, matches)
-        h = to_model("header", dict(f["header"], merkle="00" * 32))
+        h = to_model("header", dict(f["header"], merkle="00" * 32, carry=0))
         h["merkle"] = refser.merkle_root(ids)
         return {"header": h, "total_transactions": n, "hashes": hashes, "flags": list(flags)}, \
                {"tx_hashes": [ids[i] for i in range(n) if matches[i]], "flag_bits": refser.partial_merkle_tree_bits(n, matches)}
@@ -339,7 +350,7 @@ def _walk(kind, m, out):
         out.add("block:ntx=%d" % len(m["txs"]))
         out.add("block:" + ("has-bip144-tx" if any(refser.has_witness(t) for t in m["txs"]) else "legacy-txs"))
     elif kind == "header":
-        out.add("hdr")
+        out.add("hdr:given-as-full-block" if m.get("carry_txs") else "hdr")
 
 
 def labels_for(name, case, model, extra):
@@ -400,8 +411,12 @@ def strs():
 
 
 def header_fields():
-    return st.builds(lambda v, p, m, t, b, n: {"version": v, "prev": p, "merkle": m, "time": t, "bits": b, "nonce": n},
-                     u(U32), hashes(), hashes(), u(U32), u(U32), u(U32))
+    def mk(v, p, m, t, b, n, carry):
+        d = {"version": v, "prev": p, "merkle": m, "time": t, "bits": b, "nonce": n}
+        if carry:
+            d["carry"] = carry
+        return d
+    return st.builds(mk, u(U32), hashes(), hashes(), u(U32), u(U32), u(U32), st.sampled_from([0, 0, 0, 0, 1, 2, 3]))
 
 
 def arrays(elem, heavy=False):
